@@ -31,7 +31,7 @@ def run_group(ck, pid, init, want, cover):
                              "EmitForms == TRUE\n====\n" % (mod, init, tla_sets))
     cfg = write_cfg(os.path.join(ck.tmp, mod + ".cfg"), constants={"Forms": "<- FormDefs", "DevChoices": "<- TheDevs"},
                     init="TheInit", next="Next", invariants=["DevCtmInSync", "NoError"],
-                    properties=["NoResidue", "QRestores", "FormTransparent", "BadOperandsFrame"], constraints=["EmitTerminal"])
+                    properties=["NoResidue", "QRestores", "FormTransparent", "BadOperandsFrame", "FrameOK"], constraints=["EmitTerminal"])
     emit = os.path.join(ck.tmp, mod + ".ndjson")
     # (TLC's -coverage is pathologically slow on this spec's recursive operators; vacuity is guarded by counting, below,
     #  which operators the enumerated programs actually execute)
@@ -219,3 +219,56 @@ def check_forms_transcription():
         mv = [1, 0, 0, 1, 0, 0] if mm.group(1) == "Ident" else [int(x) for x in re.findall(r"-?\d+", mm.group(1))]
         if mv != f["m"]:
             raise MachineryError("harness copy of form %s matrix differs" % name)
+
+
+TRACE_SPEC = os.path.join(SPECS, "interp", "ContentInterpTrace.tla")
+
+
+def direction_b(ck, pid):
+    """operator traces of the real interpreter on pages of the repository samples, validated by TLC"""
+    import glob
+    import random
+    rng = random.Random(ck.seed + 17)
+    files = sorted(glob.glob("/repo/samples/**/*.pdf", recursive=True))
+    pick = files if ck.tier == "thorough" else rng.sample(files, 14)
+    recs = []
+    for fn in pick:
+        pw = "foo" if "encryption" in fn and "base" not in fn else ""
+        try:
+            recs += IR.record_operator_traces(open(fn, "rb").read(), os.path.relpath(fn, "/repo"),
+                                              maxpages=3 if ck.tier == "quick" else 10, password=pw)
+        except Exception as e:  # noqa: BLE001
+            ck.note("sample %s not traced: %s" % (os.path.basename(fn), type(e).__name__))
+    if not recs:
+        raise MachineryError("no operator traces recorded")
+    tf = os.path.join(ck.tmp, "interp_traces.json")
+    cfg = write_cfg(os.path.join(ck.tmp, "interp_trace.cfg"), spec="Spec", invariants=["StackDepthAgrees"], deadlock=True)
+    todo = recs
+    rejected = 0
+    while todo:
+        json.dump(todo, open(tf, "w"))
+        res = run_tlc(TRACE_SPEC, cfg, workers=1, env={"TRACE_FILE": tf}, timeout=3600, heap="8g")
+        ck.add_tlc(res, "validation of %d recorded operator traces" % len(todo))
+        if res.ok:
+            ck.traces += len(todo)
+            break
+        if not res.error_trace:
+            raise MachineryError("trace validation failed unexpectedly: " + res.error_text[:2000])
+        st = res.error_trace[-1][1]
+        t, e = int(st["t"]), int(st["e"])
+        tr = todo[t - 1]
+        ev = tr["events"][e - 1] if e - 1 < len(tr["events"]) else None
+        prev = tr["events"][e - 2]["after"] if e >= 2 else tr["init"]
+        rejected += 1
+        ck.traces += t - 1
+        ck.violation("operator-trace-rejected:" + (ev["op"] if ev else "?"),
+                     "%s: operator #%d %r is not a step the interpreter specification allows (state before: %r)" % (tr["label"], e, ev, prev),
+                     {"program": tr["label"].encode(), "property": pid, "event": ev, "before": prev})
+        todo = todo[t:]
+        if rejected >= 3:
+            break
+    ck.extra["operator_events_validated"] = sum(len(r["events"]) for r in recs)
+    big = max(recs, key=lambda r: len(r["events"]))
+    ck.sample({"trace": big["label"], "operators": len(big["events"]), "first_events": big["events"][:4]})
+    for r in recs:
+        ck.case(len(r["events"]), ("b", r["label"]))
